@@ -16,9 +16,11 @@ import (
 	"strings"
 	"time"
 
+	"github.com/thomasjungblut/go-sstables/memstore"
 	"github.com/thomasjungblut/go-sstables/recordio"
 	rProto "github.com/thomasjungblut/go-sstables/recordio/proto"
 	"github.com/thomasjungblut/go-sstables/simpledb"
+	dbproto "github.com/thomasjungblut/go-sstables/simpledb/proto"
 	"github.com/thomasjungblut/go-sstables/skiplist"
 	"github.com/thomasjungblut/go-sstables/sstables"
 	"github.com/thomasjungblut/go-sstables/wal"
@@ -34,7 +36,12 @@ import (
 //   - recordio readers / writers and the WAL appender / replayer, incl. writers that were rewound with Seek and are
 //     closed below their high-water mark (buffered and direct I/O) and table writers closed after a rolled-back
 //     WriteNext (index write fault through the hook),
-//   - a soak session with many flush + compaction + reopen cycles.
+//   - a soak session with many flush + compaction + reopen cycles,
+//   - (runtime oracles only, second generator, see hxExtra) database lifecycles that START from a crash-like
+//     directory state (header-less newest WAL file, unfinished / half-removed table directories, unflagged,
+//     unreadably flagged and flagged compaction directories): Open, work, Close, Open, Close,
+//   - (same) error paths: constructors / Open / Scan / compaction / Close that fail have to release what they
+//     had opened (one family per leak repaired in /repo, inputs drawn per case).
 //
 // Measured on the unchanged tree: at every quiescent point (client call returned, flusher idle, no compaction
 // cycle running) the handles under the directory are exactly one WAL descriptor plus one data.rio mapping per
@@ -170,7 +177,10 @@ func runHandles(res *Result, drv *Driver, seed uint64, n int, tier string, only 
 		"real ticker: bound + release only), table-reader programs (Scan complete/abandoned, ScanStartingAt/ScanRange, Close, scan after Close), " +
 		"recordio reader/writer + WAL appender/replayer open-close cases, soak sessions; oracle at every quiescent sample: #fd+#map under the " +
 		"directory <= #live tables + 1, after Close: none, no library goroutine, directory removable and re-openable; " +
-		"non-trivial = a session with at least one flush and one merging compaction, a reader case with >= 2 scanners, or a recordio/WAL case; distinct = distinct step strings / parameters"
+		"non-trivial = a session with at least one flush and one merging compaction, a reader case with >= 2 scanners, or a recordio/WAL case; distinct = distinct step strings / parameters; " +
+		"in addition (idx%4 == 1) Open/work/Close lifecycles on crash-like directory states (14 classes, stats case:crash-state:*; same bound and release oracles, " +
+		"Open has to succeed where the recovery code documents the state as recoverable) and (idx%4 == 2) error-path cases (12 families, stats case:error-path:*: " +
+		"whatever failed, nothing it opened stays open - descriptors incl. /dev/full, mappings, library goroutines); every such case counts as non-trivial"
 	old := debug.SetGCPercent(-1)
 	defer debug.SetGCPercent(old)
 	for idx := 0; idx < n; idx++ {
@@ -200,6 +210,10 @@ func runHandles(res *Result, drv *Driver, seed uint64, n int, tier string, only 
 			err = hSession(res, drv, r, idx, tier)
 		}
 		if err != nil {
+			return err
+		}
+		// additional cases (own generator state: what the indices above generate stays as it was)
+		if err := hxExtra(res, seed, idx); err != nil {
 			return err
 		}
 		runtime.GC()
@@ -1513,4 +1527,1461 @@ func handlesMinInt(a, b int) int {
 		return a
 	}
 	return b
+}
+
+// ---------------------------------------------------------------------------------------------
+// additional cases, interleaved by index (idx%4 == 1: database lifecycles that start from a crash-like directory
+// state; idx%4 == 2: error paths).  They are runtime oracles only (no model) and draw from a second generator.
+
+const hxSeedMix = 0x68616e646c657332
+
+func hxExtra(res *Result, seed uint64, idx int) error {
+	if idx%4 != 1 && idx%4 != 2 {
+		return nil
+	}
+	r := NewRng(seed^hxSeedMix, uint64(idx))
+	hBaseFlusher, hBaseTicker = hGoroutinesAbs()
+	if idx%4 == 1 {
+		return hCrashOpen(res, r, idx, idx/4)
+	}
+	return hErrPath(res, r, idx, idx/4)
+}
+
+type hxCase struct {
+	res      *Result
+	idx      int
+	sig      string
+	human    []string
+	reported int // a handle that stays is seen by every later sample of the case: only the first one is reported
+	devFull0 int // descriptors of /dev/full the process had when the case began
+}
+
+func (c *hxCase) cs() string { return strings.Join(c.human, " ") }
+
+func (c *hxCase) note(f string, a ...interface{}) { c.human = append(c.human, fmt.Sprintf(f, a...)) }
+
+func (c *hxCase) violate(what, detail string) {
+	c.reported++
+	if c.reported > 1 {
+		c.res.Stat("further-failing-samples-in-a-reported-case")
+		return
+	}
+	c.res.Violate(c.idx, "C19", c.sig, what+": "+detail, c.cs())
+}
+
+func hxCopyDir(src, dst string) error {
+	return filepath.Walk(src, func(p string, info os.FileInfo, err error) error {
+		if err != nil {
+			return err
+		}
+		rel, err := filepath.Rel(src, p)
+		if err != nil {
+			return err
+		}
+		t := filepath.Join(dst, rel)
+		if info.IsDir() {
+			return os.MkdirAll(t, 0o700)
+		}
+		b, err := os.ReadFile(p)
+		if err != nil {
+			return err
+		}
+		return os.WriteFile(t, b, 0o600)
+	})
+}
+
+var hxTableDirRe = regexp.MustCompile(`^sstable_([0-9]{15})$`)
+
+// hxTableGens: generations of the table directories in a database directory, ascending
+func hxTableGens(dir string) []int {
+	var out []int
+	ents, _ := os.ReadDir(dir)
+	for _, e := range ents {
+		if m := hxTableDirRe.FindStringSubmatch(e.Name()); m != nil && e.IsDir() {
+			g, _ := strconv.Atoi(m[1])
+			out = append(out, g)
+		}
+	}
+	sort.Ints(out)
+	return out
+}
+
+// hxWalNums: numbers of the log files in <dir>/wal, ascending
+func hxWalNums(dir string) []int {
+	var out []int
+	ents, _ := os.ReadDir(filepath.Join(dir, simpledb.WriteAheadFolder))
+	for _, e := range ents {
+		if strings.HasSuffix(e.Name(), ".wal") {
+			if n, err := strconv.Atoi(strings.TrimSuffix(e.Name(), ".wal")); err == nil {
+				out = append(out, n)
+			}
+		}
+	}
+	sort.Ints(out)
+	return out
+}
+
+func hxTablePath(dir string, gen int) string {
+	return filepath.Join(dir, fmt.Sprintf(simpledb.SSTablePattern, gen))
+}
+
+func hxWalPath(dir string, n int) string {
+	return filepath.Join(dir, simpledb.WriteAheadFolder, fmt.Sprintf("%06d.wal", n))
+}
+
+// hxHeaderBytes: the first k bytes (k <= 8) of a RecordIO file as the real writer produces it
+func hxHeaderBytes(scratch string, comp int, k int) ([]byte, error) {
+	p := filepath.Join(scratch, fmt.Sprintf("header-%d.rio", comp))
+	if _, err := os.Stat(p); err != nil {
+		w, err := recordio.NewFileWriter(recordio.Path(p), recordio.CompressionType(comp))
+		if err != nil {
+			return nil, err
+		}
+		if err := w.Open(); err != nil {
+			return nil, err
+		}
+		if err := w.Close(); err != nil {
+			return nil, err
+		}
+	}
+	b, err := os.ReadFile(p)
+	if err != nil {
+		return nil, err
+	}
+	if len(b) != recordio.FileHeaderSizeBytes {
+		return nil, fmt.Errorf("a record-less RecordIO file has %d bytes", len(b))
+	}
+	return b[:k], nil
+}
+
+var hxCrashClasses = []string{
+	"wal-last-file-empty",
+	"wal-last-file-short",
+	"wal-only-file-short",
+	"wal-older-file-short",
+	"table-only-empty-index",
+	"table-index-data-headers-no-meta",
+	"table-empty-meta",
+	"table-half-removed",
+	"table-empty-dir",
+	"compaction-dir-unflagged",
+	"compaction-dir-unreadable-flag",
+	"compaction-dir-flagged",
+	"table-complete-no-meta",
+	"combined",
+}
+
+// hxBuildImage: a database with some flushed tables and some acknowledged mutations in its log (written
+// synchronously), copied while it runs (a crash at an operation boundary) or after a clean Close.
+func hxBuildImage(c *hxCase, r *Rng, root string, minTables int) (string, error) {
+	live := filepath.Join(root, "live")
+	img := filepath.Join(root, "crashed")
+	if err := os.MkdirAll(live, 0o700); err != nil {
+		return "", err
+	}
+	d, err := simpledb.NewSimpleDB(live, simpledb.DisableCompactions(), simpledb.MemstoreSizeBytes(1<<40))
+	if err != nil {
+		return "", err
+	}
+	if err := d.Open(); err != nil {
+		return "", err
+	}
+	mutate := func() error {
+		k := string([]byte{byte('a' + r.Intn(8))})
+		if r.Chance(20) {
+			return d.Delete(k)
+		}
+		return d.Put(k, fmt.Sprintf("%x", r.Bytes(1+r.Intn(20))))
+	}
+	nt := minTables + r.Intn(4-minTables)
+	for t := 0; t < nt; t++ {
+		if err := d.Put(string([]byte{byte('a' + r.Intn(8))}), fmt.Sprintf("%x", r.Bytes(1+r.Intn(20)))); err != nil {
+			return "", err
+		}
+		for i := r.Intn(3); i > 0; i-- {
+			if err := mutate(); err != nil {
+				return "", err
+			}
+		}
+		if err := d.VerifRotate(); err != nil {
+			return "", err
+		}
+		d.VerifWaitFlushIdle()
+	}
+	tail := r.Intn(5)
+	for i := 0; i < tail; i++ {
+		if err := mutate(); err != nil {
+			return "", err
+		}
+	}
+	running := r.Chance(60)
+	if running {
+		if err := hxCopyDir(live, img); err != nil {
+			return "", err
+		}
+	}
+	if err := d.Close(); err != nil {
+		return "", err
+	}
+	if !running {
+		if err := hxCopyDir(live, img); err != nil {
+			return "", err
+		}
+	}
+	items, err := hObserve(live)
+	if err != nil {
+		return "", err
+	}
+	f, t := hWaitNoGoroutines()
+	c.res.Evaluations++
+	if len(items) > 0 || f+t > 0 {
+		c.violate("the database the image was copied from, after Close", fmt.Sprintf("%v flusher=%d ticker=%d", items, f, t))
+	}
+	hBaseFlusher, hBaseTicker = hGoroutinesAbs()
+	how := "closed"
+	if running {
+		how = "running"
+		c.res.Stat("crash-state:image-of-running-db")
+	} else {
+		c.res.Stat("crash-state:image-of-closed-db")
+	}
+	c.note("image(%s,tables=%v,wal=%v,unflushed=%d)", how, hxTableGens(img), hxWalNums(img), tail)
+	return img, nil
+}
+
+// hxWriteFlag writes a readable compaction_successful file
+func hxWriteFlag(path string, meta *dbproto.CompactionMetadata) error {
+	w, err := rProto.NewWriter(rProto.Path(path), rProto.WriteBufferSizeBytes(4096))
+	if err != nil {
+		return err
+	}
+	if err := w.Open(); err != nil {
+		return err
+	}
+	if _, err := w.Write(meta); err != nil {
+		return err
+	}
+	return w.Close()
+}
+
+// hxMutateImage turns the image into the crash state of the class.  mustOpen: the recovery code documents the
+// state as one it gets over (Open has to succeed); otherwise only the handles are judged.
+func hxMutateImage(c *hxCase, r *Rng, class string, img, scratch string) (mustOpen bool, err error) {
+	gens := hxTableGens(img)
+	nextGen := 1
+	if len(gens) > 0 {
+		nextGen = gens[len(gens)-1] + 1
+	}
+	nextGen += r.Intn(2)
+	wals := hxWalNums(img)
+	nextWal := 0
+	if len(wals) > 0 {
+		nextWal = wals[len(wals)-1] + 1
+	}
+	walDir := filepath.Join(img, simpledb.WriteAheadFolder)
+	short := func(k int) ([]byte, error) { // k bytes: the beginning of a real header, or anything
+		if r.Chance(70) {
+			return hxHeaderBytes(scratch, recordio.CompressionTypeSnappy, k)
+		}
+		return r.Bytes(k), nil
+	}
+	headerOnly := func(p string) error {
+		b, err := hxHeaderBytes(scratch, recordio.CompressionTypeNone, 8)
+		if err != nil {
+			return err
+		}
+		return os.WriteFile(p, b, 0o600)
+	}
+	switch class {
+	case "wal-last-file-empty":
+		if err := os.MkdirAll(walDir, 0o700); err != nil {
+			return false, err
+		}
+		c.note("+wal/%06d.wal(0B)", nextWal)
+		return true, os.WriteFile(hxWalPath(img, nextWal), nil, 0o600)
+	case "wal-last-file-short":
+		if err := os.MkdirAll(walDir, 0o700); err != nil {
+			return false, err
+		}
+		k := 1 + r.Intn(7)
+		b, err := short(k)
+		if err != nil {
+			return false, err
+		}
+		c.note("+wal/%06d.wal(%dB)", nextWal, k)
+		return true, os.WriteFile(hxWalPath(img, nextWal), b, 0o600)
+	case "wal-only-file-short":
+		// the process died right after Open created its first log file (an earlier recovery had emptied the folder)
+		if err := os.RemoveAll(walDir); err != nil {
+			return false, err
+		}
+		if err := os.MkdirAll(walDir, 0o700); err != nil {
+			return false, err
+		}
+		k := r.Intn(8)
+		b, err := short(k)
+		if err != nil {
+			return false, err
+		}
+		c.note("wal={000000.wal(%dB)}", k)
+		return true, os.WriteFile(hxWalPath(img, 0), b, 0o600)
+	case "wal-older-file-short":
+		// not a state a crash of this code produces (only the newest file can lack its header): Open may refuse
+		if err := os.MkdirAll(walDir, 0o700); err != nil {
+			return false, err
+		}
+		k := r.Intn(8)
+		b, err := short(k)
+		if err != nil {
+			return false, err
+		}
+		if err := os.WriteFile(hxWalPath(img, nextWal), b, 0o600); err != nil {
+			return false, err
+		}
+		b8, err := hxHeaderBytes(scratch, recordio.CompressionTypeSnappy, 8)
+		if err != nil {
+			return false, err
+		}
+		c.note("+wal/%06d.wal(%dB) +wal/%06d.wal(header)", nextWal, k, nextWal+1)
+		return false, os.WriteFile(hxWalPath(img, nextWal+1), b8, 0o600)
+	case "table-only-empty-index":
+		t := hxTablePath(img, nextGen)
+		if err := os.MkdirAll(t, 0o700); err != nil {
+			return false, err
+		}
+		k := 0
+		if r.Chance(40) {
+			k = 1 + r.Intn(7)
+		}
+		b, err := short(k)
+		if err != nil {
+			return false, err
+		}
+		c.note("+table %d {index.rio(%dB)}", nextGen, k)
+		if err := os.WriteFile(filepath.Join(t, sstables.IndexFileName), b, 0o600); err != nil {
+			return false, err
+		}
+		switch r.Intn(3) { // the data file: not there yet, created, created with its header
+		case 1:
+			c.note("+data.rio(0B)")
+			return true, os.WriteFile(filepath.Join(t, sstables.DataFileName), nil, 0o600)
+		case 2:
+			c.note("+data.rio(header)")
+			return true, headerOnly(filepath.Join(t, sstables.DataFileName))
+		}
+		return true, nil
+	case "table-index-data-headers-no-meta":
+		// loads as an empty table of the metadata-less legacy format and is kept
+		t := hxTablePath(img, nextGen)
+		if err := os.MkdirAll(t, 0o700); err != nil {
+			return false, err
+		}
+		c.note("+table %d {index.rio(header) data.rio(header)}", nextGen)
+		if err := headerOnly(filepath.Join(t, sstables.IndexFileName)); err != nil {
+			return false, err
+		}
+		return true, headerOnly(filepath.Join(t, sstables.DataFileName))
+	case "table-empty-meta":
+		t := hxTablePath(img, nextGen)
+		if r.Chance(50) {
+			// a complete index and data file, the metadata still empty (killed before the writer's Close wrote it)
+			if _, err := hWriteTable(t, 1+r.Intn(20), r); err != nil {
+				return false, err
+			}
+			_ = os.Remove(filepath.Join(t, sstables.BloomFileName))
+			c.note("+table %d {index.rio data.rio meta.pb.bin(0B)}", nextGen)
+		} else {
+			if err := os.MkdirAll(t, 0o700); err != nil {
+				return false, err
+			}
+			if err := headerOnly(filepath.Join(t, sstables.IndexFileName)); err != nil {
+				return false, err
+			}
+			if err := headerOnly(filepath.Join(t, sstables.DataFileName)); err != nil {
+				return false, err
+			}
+			c.note("+table %d {index.rio(header) data.rio(header) meta.pb.bin(0B)}", nextGen)
+		}
+		return true, os.WriteFile(filepath.Join(t, sstables.MetaFileName), nil, 0o600)
+	case "table-half-removed":
+		// a table whose removal (recovery of a finished compaction, or of an unfinished flush) was interrupted
+		g := nextGen
+		if len(gens) > 0 && r.Chance(70) {
+			g = gens[r.Intn(len(gens))]
+		} else if _, err := hWriteTable(hxTablePath(img, g), 1+r.Intn(20), r); err != nil {
+			return false, err
+		}
+		t := hxTablePath(img, g)
+		rm := func(names ...string) error {
+			for _, n := range names {
+				if err := os.Remove(filepath.Join(t, n)); err != nil && !os.IsNotExist(err) {
+					return err
+				}
+			}
+			return nil
+		}
+		switch v := r.Intn(4); v {
+		case 0:
+			c.note("table %d -index.rio", g)
+			return false, rm(sstables.IndexFileName)
+		case 1:
+			c.note("table %d -index.rio -data.rio", g)
+			return false, rm(sstables.IndexFileName, sstables.DataFileName)
+		case 2:
+			c.note("table %d -index.rio -data.rio -meta.pb.bin", g)
+			return true, rm(sstables.IndexFileName, sstables.DataFileName, sstables.MetaFileName)
+		default:
+			c.note("table %d -meta.pb.bin -bloom.bf.gz", g)
+			return false, rm(sstables.MetaFileName, sstables.BloomFileName)
+		}
+	case "table-empty-dir":
+		c.note("+table %d {}", nextGen)
+		return true, os.MkdirAll(hxTablePath(img, nextGen), 0o700)
+	case "compaction-dir-unflagged":
+		cd := filepath.Join(img, fmt.Sprintf("%s%d", simpledb.SSTableCompactionPathPrefix, 100000+r.Intn(900000)))
+		if err := os.MkdirAll(cd, 0o700); err != nil {
+			return false, err
+		}
+		switch r.Intn(4) {
+		case 0:
+			c.note("+%s {}", filepath.Base(cd))
+		case 1:
+			c.note("+%s {data.rio(junk)}", filepath.Base(cd))
+			return true, os.WriteFile(filepath.Join(cd, sstables.DataFileName), r.Bytes(1+r.Intn(40)), 0o600)
+		case 2:
+			c.note("+%s {complete table, no flag}", filepath.Base(cd))
+			_, err := hWriteTable(cd, 1+r.Intn(30), r)
+			return true, err
+		default:
+			c.note("+%s {index.rio(header) data.rio(header) meta.pb.bin(0B)}", filepath.Base(cd))
+			if err := headerOnly(filepath.Join(cd, sstables.IndexFileName)); err != nil {
+				return false, err
+			}
+			if err := headerOnly(filepath.Join(cd, sstables.DataFileName)); err != nil {
+				return false, err
+			}
+			return true, os.WriteFile(filepath.Join(cd, sstables.MetaFileName), nil, 0o600)
+		}
+		return true, nil
+	case "compaction-dir-unreadable-flag":
+		cd := filepath.Join(img, fmt.Sprintf("%s%d", simpledb.SSTableCompactionPathPrefix, 100000+r.Intn(900000)))
+		if _, err := hWriteTable(cd, 1+r.Intn(30), r); err != nil {
+			return false, err
+		}
+		flag := filepath.Join(cd, simpledb.CompactionFinishedSuccessfulFileName)
+		switch r.Intn(4) {
+		case 0:
+			c.note("+%s {table, flag(0B)}", filepath.Base(cd))
+			return true, os.WriteFile(flag, nil, 0o600)
+		case 1:
+			k := 1 + r.Intn(7)
+			b, err := short(k)
+			if err != nil {
+				return false, err
+			}
+			c.note("+%s {table, flag(%dB)}", filepath.Base(cd), k)
+			return true, os.WriteFile(flag, b, 0o600)
+		case 2:
+			c.note("+%s {table, flag(header)}", filepath.Base(cd))
+			return true, headerOnly(flag)
+		default:
+			b, err := hxHeaderBytes(scratch, recordio.CompressionTypeNone, 8)
+			if err != nil {
+				return false, err
+			}
+			c.note("+%s {table, flag(header+junk)}", filepath.Base(cd))
+			return true, os.WriteFile(flag, append(append([]byte{}, b...), r.Bytes(1+r.Intn(30))...), 0o600)
+		}
+	case "compaction-dir-flagged":
+		// a finished compaction whose result was not moved into place yet; the inputs untouched or partly removed
+		if len(gens) == 0 {
+			return false, fmt.Errorf("flagged compaction needs a table")
+		}
+		from := r.Intn(len(gens))
+		inputs := gens[from:]
+		name := fmt.Sprintf("%s%d", simpledb.SSTableCompactionPathPrefix, 100000+r.Intn(900000))
+		cd := filepath.Join(img, name)
+		if _, err := hWriteTable(cd, 1+r.Intn(30), r); err != nil {
+			return false, err
+		}
+		meta := &dbproto.CompactionMetadata{WritePath: name, ReplacementPath: fmt.Sprintf(simpledb.SSTablePattern, inputs[0])}
+		for _, g := range inputs {
+			meta.SstablePaths = append(meta.SstablePaths, fmt.Sprintf(simpledb.SSTablePattern, g))
+		}
+		if err := hxWriteFlag(filepath.Join(cd, simpledb.CompactionFinishedSuccessfulFileName), meta); err != nil {
+			return false, err
+		}
+		c.note("+%s {table, flag(inputs=%v)}", name, inputs)
+		if r.Chance(50) { // the recovery that died had begun to delete: newest-numbered inputs first or last, partly
+			for i, g := range inputs {
+				if i == 0 {
+					continue
+				}
+				switch r.Intn(3) {
+				case 0:
+					c.note("-table %d", g)
+					if err := os.RemoveAll(hxTablePath(img, g)); err != nil {
+						return false, err
+					}
+				case 1:
+					c.note("table %d -index.rio", g)
+					_ = os.Remove(filepath.Join(hxTablePath(img, g), sstables.IndexFileName))
+				}
+			}
+		}
+		return true, nil
+	case "table-complete-no-meta":
+		// hand-made (recovery cannot leave it any more): kept as a legacy table; only the handles are judged
+		g := nextGen
+		if len(gens) > 0 && r.Chance(50) {
+			g = gens[r.Intn(len(gens))]
+		} else if _, err := hWriteTable(hxTablePath(img, g), 1+r.Intn(20), r); err != nil {
+			return false, err
+		}
+		c.note("table %d -meta.pb.bin", g)
+		if err := os.Remove(filepath.Join(hxTablePath(img, g), sstables.MetaFileName)); err != nil {
+			return false, err
+		}
+		return false, nil
+	case "combined":
+		must := true
+		for _, cl := range []string{"wal-last-file-short", "table-only-empty-index", "compaction-dir-unflagged", "table-empty-meta"} {
+			if r.Chance(70) {
+				m, err := hxMutateImage(c, r, cl, img, scratch)
+				if err != nil {
+					return false, err
+				}
+				must = must && m
+			}
+		}
+		return must, nil
+	}
+	return false, fmt.Errorf("unknown crash-state class %q", class)
+}
+
+// hCrashOpen: Open on a crash-like directory state, some work, Close (twice over: the recovered directory is opened
+// once more).  Judged: descriptors + mappings under the directory <= live tables + 1 at every quiescent point while
+// open, none after Close or after a failed Open, library goroutines <= 1 each while open and none afterwards; Open
+// succeeds for the states the recovery code documents as recoverable.
+func hCrashOpen(res *Result, r *Rng, idx int, ord int) error {
+	root, err := hTempDir("crash")
+	if err != nil {
+		return err
+	}
+	defer os.RemoveAll(root)
+	class := hxCrashClasses[ord%len(hxCrashClasses)]
+	res.Cases++
+	res.Stat("case:crash-state:" + class)
+	c := &hxCase{res: res, idx: idx, sig: "open-on-crash-state:" + class}
+	minTables := 0
+	if class == "compaction-dir-flagged" {
+		minTables = 1
+	}
+	img, err := hxBuildImage(c, r, root, minTables)
+	if err != nil {
+		return fmt.Errorf("crash-state image: %w", err)
+	}
+	mustOpen, err := hxMutateImage(c, r, class, img, root)
+	if err != nil {
+		return fmt.Errorf("crash-state %s: %w", class, err)
+	}
+	rounds := 1
+	if r.Chance(50) {
+		rounds = 2
+	}
+	for round := 0; round < rounds; round++ {
+		opts := []simpledb.ExtraOption{
+			simpledb.MemstoreSizeBytes(uint64([]int{1 << 30, 1 << 30, 200, 2000}[r.Intn(4)])),
+			simpledb.CompactionFileThreshold(r.Intn(3)),
+			simpledb.CompactionMaxSizeBytes(uint64([]int{1 << 30, 1 << 30, 5000}[r.Intn(3)])),
+			simpledb.ReadBufferSizeBytes(4096), simpledb.WriteBufferSizeBytes(4096),
+		}
+		mode := "off"
+		if r.Chance(50) {
+			mode = "idle"
+			opts = append(opts, simpledb.CompactionRunInterval(time.Hour))
+		} else {
+			opts = append(opts, simpledb.DisableCompactions())
+		}
+		if r.Chance(20) {
+			opts = append(opts, simpledb.EnableAsyncWAL())
+			mode += ",async"
+		}
+		d, err := simpledb.NewSimpleDB(img, opts...)
+		if err != nil {
+			return err
+		}
+		operr := safely(d.Open)
+		c.note("open(%s)=%s", mode, hxErrWord(operr))
+		nothingOpen := func(when string) error {
+			items, err := hObserve(img)
+			if err != nil {
+				return err
+			}
+			f, t := hWaitNoGoroutines()
+			res.Evaluations++
+			if len(items) > 0 {
+				c.violate(when, fmt.Sprintf("descriptors/mappings under the directory: %v", items))
+			}
+			if f+t > 0 {
+				c.violate(when, fmt.Sprintf("%d flusher, %d compaction goroutines", f, t))
+			}
+			return nil
+		}
+		if operr != nil {
+			res.Stat("crash-state:open-failed:" + class)
+			res.Evaluations++
+			if mustOpen || round > 0 {
+				c.violate("Open failed", operr.Error())
+			}
+			if err := nothingOpen("after the failed Open"); err != nil {
+				return err
+			}
+			_ = safely(d.Close) // refuses (never opened); must not open anything either
+			if err := nothingOpen("after Close on the database whose Open had failed"); err != nil {
+				return err
+			}
+			break
+		}
+		res.Stat("crash-state:open-ok:" + class)
+		bound := func(after string) error {
+			d.VerifWaitFlushIdle()
+			names, _, _, _ := d.VerifTables()
+			items, err := hObserve(img)
+			if err != nil {
+				return err
+			}
+			f, t := hGoroutines()
+			res.Evaluations++
+			if len(items) > len(names)+hQuiescentConst {
+				c.violate("after "+after, fmt.Sprintf("%d live tables, %d descriptors+mappings: %v", len(names), len(items), items))
+			}
+			if f > 1 || t > 1 {
+				c.violate("after "+after, fmt.Sprintf("%d flusher, %d compaction goroutines", f, t))
+			}
+			return nil
+		}
+		if err := bound("Open"); err != nil {
+			return err
+		}
+		nops := 3 + r.Intn(8)
+		for op := 0; op < nops; op++ {
+			k := string([]byte{byte('a' + r.Intn(8))})
+			what := ""
+			switch x := r.Intn(100); {
+			case x < 40:
+				v := fmt.Sprintf("%x", r.Bytes(1+r.Intn(60)))
+				what = "put=" + hxErrWord(d.Put(k, v))
+			case x < 50:
+				what = "del=" + hxErrWord(d.Delete(k))
+			case x < 65:
+				_, err := d.Get(k)
+				if err != nil && !errors.Is(err, simpledb.ErrNotFound) {
+					what = "get=err"
+				} else {
+					what = "get"
+				}
+			case x < 85:
+				what = "rotate=" + hxErrWord(d.VerifRotate())
+			default:
+				d.VerifWaitFlushIdle()
+				cerr := safely(func() error { _, _, e := d.VerifCompactOnce(); return e })
+				what = "compact=" + hxErrWord(cerr)
+				if cerr != nil {
+					res.Stat("crash-state:compaction-failed:" + class)
+				}
+			}
+			c.note("%s", what)
+			if err := bound(what); err != nil {
+				return err
+			}
+		}
+		cerr := safely(d.Close)
+		c.note("close=%s", hxErrWord(cerr))
+		if cerr != nil {
+			res.Stat("crash-state:close-failed:" + class)
+		}
+		if err := nothingOpen("after Close"); err != nil {
+			return err
+		}
+	}
+	res.NoteNontrivial("crash:" + c.cs())
+	res.Sample(c.cs())
+	return nil
+}
+
+func hxErrWord(err error) string {
+	if err == nil {
+		return "ok"
+	}
+	return "err"
+}
+
+// ---------------------------------------------------------------------------------------------
+// error paths: a constructor / Open / Scan / compaction / Close that FAILS has to release what it had opened.
+// One family per repaired leak (the commit that repaired it in brackets); what is damaged / missing / unwritable,
+// which loader, which entry point and the sizes are drawn per case.
+
+var hxErrFamilies = []string{
+	"writer-close-fails",           // [855b3b1] recordio writer: final flush fails
+	"index-loader-open-fails",      // [ef70dba] index.rio shorter than a header, in-memory loaders
+	"scan-open-fails",              // [8cb5d77] Scan when data.rio lost its header after the load
+	"reader-load-later-step-fails", // [5d579b7] NewSSTableReader failing after index / data were opened
+	"table-writer-open-fails",      // [3b4867f] SSTableStreamWriter.Open failing at the 2nd / 3rd file
+	"wal-writer-open-fails",        // [a9ebc7d] WAL appender: the next file's writer fails to open
+	"compaction-flag-open-fails",   // [a7ed007] the compaction_successful writer fails to open
+	"compaction-input-fails",       // [bfb8835] a compaction input that does not load
+	"db-open-fails-half-way",       // [edfc7e7] Open failing after some tables were loaded
+	"db-close-fails-at-rotation",   // [b2bab73] Close whose WAL rotation fails
+	"reader-file-option",           // [2af272a] NewFileReader(ReaderFile(f)) and friends take over f
+	"wal-replayer-ctor-fails",      // [9faa0b1] NewWriteAheadLog: appender created, replayer refused
+}
+
+func hxDevFullCount() int {
+	n := 0
+	ents, _ := os.ReadDir("/proc/self/fd")
+	for _, e := range ents {
+		if t, err := os.Readlink("/proc/self/fd/" + e.Name()); err == nil && t == "/dev/full" {
+			n++
+		}
+	}
+	return n
+}
+
+// observe: descriptors + mappings under dir, plus the descriptors of /dev/full opened since the case began
+func (c *hxCase) observe(dir string) ([]string, error) {
+	items, err := hObserve(dir)
+	if err != nil {
+		return nil, err
+	}
+	for i := hxDevFullCount() - c.devFull0; i > 0; i-- {
+		items = append(items, "fd:/dev/full")
+	}
+	return items, nil
+}
+
+// atMost: at most n descriptors + mappings now (n == 0: also no library goroutine)
+func (c *hxCase) atMost(dir string, n int, when string) error {
+	items, err := c.observe(dir)
+	if err != nil {
+		return err
+	}
+	c.res.Evaluations++
+	c.note("[%s:%d]", when, len(items))
+	if len(items) > n {
+		c.violate(when, fmt.Sprintf("%d descriptors/mappings (at most %d expected): %v", len(items), n, items))
+	}
+	if n == 0 {
+		if f, t := hWaitNoGoroutines(); f+t > 0 {
+			c.violate(when, fmt.Sprintf("%d flusher, %d compaction goroutines", f, t))
+		}
+	}
+	return nil
+}
+
+func hxLoader(r *Rng, inMemoryOnly bool) (string, []sstables.ReadOption) {
+	names := []string{"default", "slice", "skiplist", "map", "disk"}
+	if inMemoryOnly {
+		names = names[:4]
+	}
+	switch l := names[r.Intn(len(names))]; l {
+	case "slice":
+		return l, []sstables.ReadOption{sstables.ReadIndexLoader(&sstables.SliceKeyIndexLoader{ReadBufferSize: 4096})}
+	case "skiplist":
+		return l, []sstables.ReadOption{sstables.ReadIndexLoader(&sstables.SkipListIndexLoader{KeyComparator: skiplist.BytesComparator{}, ReadBufferSize: 4096})}
+	case "map":
+		return l, []sstables.ReadOption{sstables.ReadIndexLoader(&sstables.MapKeyIndexLoader[[20]byte]{ReadBufferSize: 4096, Mapper: &sstables.Byte20KeyMapper{}})}
+	case "disk":
+		return l, []sstables.ReadOption{sstables.ReadIndexLoader(&sstables.DiskIndexLoader{})}
+	default:
+		return l, nil
+	}
+}
+
+// hxFlipLastByte changes the last byte of the file in place (no truncation: the file may be mapped)
+func hxFlipLastByte(p string) error {
+	f, err := os.OpenFile(p, os.O_RDWR, 0)
+	if err != nil {
+		return err
+	}
+	defer f.Close()
+	st, err := f.Stat()
+	if err != nil {
+		return err
+	}
+	if st.Size() == 0 {
+		return fmt.Errorf("%s is empty", p)
+	}
+	b := make([]byte, 1)
+	if _, err := f.ReadAt(b, st.Size()-1); err != nil {
+		return err
+	}
+	b[0] ^= 0xff
+	_, err = f.WriteAt(b, st.Size()-1)
+	return err
+}
+
+// hxDamageTable makes a complete table directory unloadable although its metadata is there (so that recovery
+// does not take it for an unfinished flush); unless allowDataCut none of these touches data.rio's size (it may be mapped)
+func hxDamageTable(c *hxCase, r *Rng, t string, allowDataCut bool) error {
+	n := 3
+	if allowDataCut {
+		n = 4
+	}
+	switch r.Intn(n) {
+	case 0:
+		c.note("damage(%s:data.rio last byte flipped)", filepath.Base(t))
+		return hxFlipLastByte(filepath.Join(t, sstables.DataFileName))
+	case 1:
+		k := r.Intn(8)
+		c.note("damage(%s:index.rio cut to %dB)", filepath.Base(t), k)
+		return os.Truncate(filepath.Join(t, sstables.IndexFileName), int64(k))
+	case 2:
+		// (a filter file that does not parse is no damage: the filter library drops the error, the table loads without)
+		c.note("damage(%s:meta.pb.bin unparseable)", filepath.Base(t))
+		return os.WriteFile(filepath.Join(t, sstables.MetaFileName), bytes.Repeat([]byte{0xff}, 12+r.Intn(8)), 0o600)
+	default:
+		k := 1 + r.Intn(7)
+		c.note("damage(%s:data.rio cut to %dB)", filepath.Base(t), k)
+		return os.Truncate(filepath.Join(t, sstables.DataFileName), int64(k))
+	}
+}
+
+// hxTablesDb: a database directory with k complete tables (generations 1..k), written with the table writer
+func hxTablesDb(r *Rng, dbDir string, k, maxKeys int) error {
+	for g := 1; g <= k; g++ {
+		if _, err := hWriteTable(hxTablePath(dbDir, g), 1+r.Intn(maxKeys), r); err != nil {
+			return err
+		}
+	}
+	return nil
+}
+
+func hErrPath(res *Result, r *Rng, idx int, ord int) error {
+	dir, err := hTempDir("err")
+	if err != nil {
+		return err
+	}
+	defer os.RemoveAll(dir)
+	fam := hxErrFamilies[ord%len(hxErrFamilies)]
+	res.Cases++
+	res.Stat("case:error-path:" + fam)
+	c := &hxCase{res: res, idx: idx, sig: "error-path:" + fam, devFull0: hxDevFullCount()}
+	outcome := func(what string, err error) { // which branch the library took goes into the evidence, it is not judged
+		w := what + "=" + hxErrWord(err)
+		c.note("%s", w)
+		res.Stat("error-path:" + fam + ":" + w)
+	}
+	directIO, _ := recordio.IsDirectIOAvailable()
+	switch fam {
+	case "writer-close-fails":
+		variant := []string{"devfull-buffered", "directio-rewound", "devfull-directio"}[r.Intn(3)]
+		if !directIO {
+			variant = "devfull-buffered"
+		}
+		comp := []int{recordio.CompressionTypeNone, recordio.CompressionTypeSnappy, recordio.CompressionTypeGZIP}[r.Intn(3)]
+		buf := []int{16, 512, 4096, 65536}[r.Intn(4)]
+		path := filepath.Join(dir, "w.rio")
+		wopts := []recordio.FileWriterOption{recordio.Path(path), recordio.CompressionType(comp)}
+		if variant != "devfull-buffered" {
+			buf = 4096
+			wopts = append(wopts, recordio.DirectIO())
+		}
+		wopts = append(wopts, recordio.BufferSizeBytes(buf))
+		if variant != "directio-rewound" {
+			if err := os.Symlink("/dev/full", path); err != nil {
+				return err
+			}
+		}
+		c.note("writer(%s,comp=%d,buf=%d)", variant, comp, buf)
+		res.Stat("error-path:" + fam + ":" + variant)
+		var w recordio.WriterI
+		err := safely(func() error { var e error; w, e = recordio.NewFileWriter(wopts...); return e })
+		outcome("new", err)
+		if err == nil {
+			operr := safely(w.Open)
+			outcome("open", operr)
+			var offs []uint64
+			nrec := 2 + r.Intn(9)
+			for i := 0; i < nrec && operr == nil; i++ {
+				off, err := w.Write(r.Bytes(r.Intn(2000)))
+				if err != nil {
+					outcome("write", err)
+					break
+				}
+				offs = append(offs, off)
+			}
+			if variant == "directio-rewound" && len(offs) > 1 {
+				// back to a record boundary (not block aligned) and on from there: the final flush cannot be written
+				outcome("seek", w.Seek(offs[1+r.Intn(len(offs)-1)]))
+				for i := 1 + r.Intn(3); i > 0; i-- {
+					if _, err := w.Write(r.Bytes(1 + r.Intn(100))); err != nil {
+						outcome("write-after-seek", err)
+						break
+					}
+				}
+			}
+			if err := c.atMost(dir, 1, "writer open"); err != nil {
+				return err
+			}
+			outcome("close", safely(w.Close))
+		}
+		if err := c.atMost(dir, 0, "after the writer's Close"); err != nil {
+			return err
+		}
+	case "index-loader-open-fails":
+		t := filepath.Join(dir, "table")
+		if _, err := hWriteTable(t, r.Intn(30), r); err != nil {
+			return err
+		}
+		k := r.Intn(9) - 1
+		if k < 0 {
+			c.note("index.rio removed")
+			if err := os.Remove(filepath.Join(t, sstables.IndexFileName)); err != nil {
+				return err
+			}
+		} else {
+			c.note("index.rio cut to %dB", k)
+			if err := os.Truncate(filepath.Join(t, sstables.IndexFileName), int64(k)); err != nil {
+				return err
+			}
+		}
+		if r.Chance(25) {
+			c.note("meta.pb.bin removed")
+			_ = os.Remove(filepath.Join(t, sstables.MetaFileName))
+		}
+		for i := 1 + r.Intn(3); i > 0; i-- {
+			name, lo := hxLoader(r, true)
+			var rd sstables.SSTableReaderI
+			err := safely(func() error {
+				var e error
+				rd, e = sstables.NewSSTableReader(append([]sstables.ReadOption{sstables.ReadBasePath(t), sstables.ReadBufferSizeBytes(4096)}, lo...)...)
+				return e
+			})
+			outcome("new-reader("+name+")", err)
+			res.Stat("error-path:" + fam + ":loader-" + name)
+			if err == nil {
+				outcome("close", safely(rd.Close))
+			}
+			if err := c.atMost(dir, 0, "after NewSSTableReader on a table without an index header"); err != nil {
+				return err
+			}
+		}
+	case "scan-open-fails":
+		t := filepath.Join(dir, "table")
+		legacy := r.Chance(25)
+		if legacy { // an empty table of the metadata-less legacy format: Scan takes its other branch
+			if err := os.MkdirAll(t, 0o700); err != nil {
+				return err
+			}
+			b, err := hxHeaderBytes(dir, recordio.CompressionTypeNone, 8)
+			if err != nil {
+				return err
+			}
+			for _, n := range []string{sstables.IndexFileName, sstables.DataFileName} {
+				if err := os.WriteFile(filepath.Join(t, n), b, 0o600); err != nil {
+					return err
+				}
+			}
+			c.note("table(legacy,empty)")
+			res.Stat("error-path:" + fam + ":legacy-format")
+		} else {
+			n := 1 + r.Intn(30)
+			if _, err := hWriteTable(t, n, r); err != nil {
+				return err
+			}
+			c.note("table(keys=%d)", n)
+		}
+		name, lo := hxLoader(r, false)
+		res.Stat("error-path:" + fam + ":loader-" + name)
+		var rd sstables.SSTableReaderI
+		err := safely(func() error {
+			var e error
+			rd, e = sstables.NewSSTableReader(append([]sstables.ReadOption{sstables.ReadBasePath(t), sstables.ReadBufferSizeBytes(4096)}, lo...)...)
+			return e
+		})
+		if err != nil {
+			return fmt.Errorf("scan-open-fails: the undamaged table does not load (%s): %w", name, err)
+		}
+		held := 2 // data.rio mapped, with the disk index index.rio as well
+		if r.Chance(40) {
+			_, err := rd.Scan()
+			outcome("scan-before", err)
+			if err == nil {
+				held++
+			}
+		}
+		k := r.Intn(8)
+		c.note("data.rio cut to %dB", k)
+		if err := os.Truncate(filepath.Join(t, sstables.DataFileName), int64(k)); err != nil {
+			return err
+		}
+		for i := 1 + r.Intn(3); i > 0; i-- {
+			var serr error
+			if perr := safely(func() error { _, serr = rd.Scan(); return nil }); perr != nil {
+				serr = perr
+			}
+			outcome("scan", serr)
+			if serr == nil {
+				held++
+			}
+			if err := c.atMost(dir, held, "after a Scan on a header-less data.rio (reader open)"); err != nil {
+				return err
+			}
+		}
+		outcome("close", safely(rd.Close))
+		if err := c.atMost(dir, 0, "after the reader's Close"); err != nil {
+			return err
+		}
+	case "reader-load-later-step-fails":
+		t := filepath.Join(dir, "table")
+		n := 1 + r.Intn(30)
+		if _, err := hWriteTable(t, n, r); err != nil {
+			return err
+		}
+		c.note("table(keys=%d)", n)
+		switch r.Intn(4) {
+		case 0:
+			k := 1 + r.Intn(7)
+			c.note("data.rio cut to %dB", k)
+			res.Stat("error-path:" + fam + ":data-header-short")
+			if err := os.Truncate(filepath.Join(t, sstables.DataFileName), int64(k)); err != nil {
+				return err
+			}
+		case 1:
+			c.note("data.rio last byte flipped")
+			res.Stat("error-path:" + fam + ":data-checksum")
+			if err := hxFlipLastByte(filepath.Join(t, sstables.DataFileName)); err != nil {
+				return err
+			}
+		case 2:
+			st, err := os.Stat(filepath.Join(t, sstables.IndexFileName))
+			if err != nil {
+				return err
+			}
+			cut := 1 + r.Intn(int(st.Size())-9)
+			c.note("index.rio cut by %dB", cut)
+			res.Stat("error-path:" + fam + ":index-cut-in-records")
+			if err := os.Truncate(filepath.Join(t, sstables.IndexFileName), st.Size()-int64(cut)); err != nil {
+				return err
+			}
+		default:
+			st, err := os.Stat(filepath.Join(t, sstables.DataFileName))
+			if err != nil {
+				return err
+			}
+			cut := 1 + r.Intn(int(st.Size())-9)
+			c.note("data.rio cut by %dB", cut)
+			res.Stat("error-path:" + fam + ":data-cut-in-records")
+			if err := os.Truncate(filepath.Join(t, sstables.DataFileName), st.Size()-int64(cut)); err != nil {
+				return err
+			}
+		}
+		for i := 1 + r.Intn(2); i > 0; i-- {
+			name, lo := hxLoader(r, false)
+			if i == 1 && r.Chance(50) {
+				name, lo = "disk", []sstables.ReadOption{sstables.ReadIndexLoader(&sstables.DiskIndexLoader{})}
+			}
+			res.Stat("error-path:" + fam + ":loader-" + name)
+			var rd sstables.SSTableReaderI
+			err := safely(func() error {
+				var e error
+				rd, e = sstables.NewSSTableReader(append([]sstables.ReadOption{sstables.ReadBasePath(t), sstables.ReadBufferSizeBytes(4096)}, lo...)...)
+				return e
+			})
+			outcome("new-reader("+name+")", err)
+			if err == nil {
+				outcome("close", safely(rd.Close))
+			}
+			if err := c.atMost(dir, 0, "after NewSSTableReader on a table whose index loads and whose data / filter does not"); err != nil {
+				return err
+			}
+		}
+	case "table-writer-open-fails":
+		t := filepath.Join(dir, "table")
+		if err := os.MkdirAll(t, 0o700); err != nil {
+			return err
+		}
+		blocked := []string{sstables.IndexFileName, sstables.DataFileName, sstables.MetaFileName, sstables.DataFileName, sstables.MetaFileName}[r.Intn(5)]
+		if err := os.Mkdir(filepath.Join(t, blocked), 0o700); err != nil {
+			return err
+		}
+		c.note("%s is a directory", blocked)
+		res.Stat("error-path:" + fam + ":blocked-" + blocked)
+		if r.Chance(50) {
+			res.Stat("error-path:" + fam + ":via-stream-writer")
+			var w *sstables.SSTableStreamWriter
+			err := safely(func() error {
+				var e error
+				w, e = sstables.NewSSTableStreamWriter(sstables.WriteBasePath(t), sstables.WithKeyComparator(skiplist.BytesComparator{}),
+					sstables.WriteBufferSizeBytes([]int{64, 4096}[r.Intn(2)]))
+				return e
+			})
+			if err != nil {
+				return fmt.Errorf("table-writer-open-fails: NewSSTableStreamWriter: %w", err)
+			}
+			outcome("open", safely(w.Open))
+			if err := c.atMost(dir, 0, "after the table writer's failed Open"); err != nil {
+				return err
+			}
+			outcome("close", safely(w.Close))
+			if err := c.atMost(dir, 0, "after Close of the table writer whose Open had failed"); err != nil {
+				return err
+			}
+		} else {
+			res.Stat("error-path:" + fam + ":via-memstore-flush")
+			m := memstore.NewMemStore()
+			for i := 1 + r.Intn(5); i > 0; i-- {
+				_ = m.Upsert(r.Bytes(1+r.Intn(8)), r.Bytes(1+r.Intn(20)))
+			}
+			outcome("flush", safely(func() error { return m.Flush(sstables.WriteBasePath(t)) }))
+			if err := c.atMost(dir, 0, "after the failed MemStore.Flush"); err != nil {
+				return err
+			}
+		}
+	case "wal-writer-open-fails":
+		walDir := filepath.Join(dir, "wal")
+		if err := os.MkdirAll(walDir, 0o700); err != nil {
+			return err
+		}
+		failAt := r.Intn(4) // which file of the log cannot be written (0: the first one, in the constructor)
+		maxSize := uint64([]int{100, 1 << 20}[r.Intn(2)])
+		calls := 0
+		wo, err := wal.NewWriteAheadLogOptions(wal.BasePath(walDir), wal.MaximumWalFileSizeBytes(maxSize),
+			wal.WriterFactory(func(path string) (recordio.WriterI, error) {
+				if calls == failAt {
+					_ = os.Symlink("/dev/full", path) // no space left: not even the header can be written
+				}
+				calls++
+				return recordio.NewFileWriter(recordio.Path(path))
+			}))
+		if err != nil {
+			return err
+		}
+		c.note("wal(unwritable file=%d,max=%d)", failAt, maxSize)
+		res.Stat(fmt.Sprintf("error-path:%s:file=%d", fam, failAt))
+		var w wal.WriteAheadLogI
+		nerr := safely(func() error { var e error; w, e = wal.NewWriteAheadLog(wo); return e })
+		outcome("new", nerr)
+		if nerr == nil {
+			for i := 0; i < 40 && calls <= failAt; i++ {
+				if r.Chance(60) {
+					if err := w.AppendSync(r.Bytes(1 + r.Intn(60))); err != nil {
+						outcome("append", err)
+						break
+					}
+				} else if _, err := w.Rotate(); err != nil {
+					outcome("rotate", err)
+					break
+				}
+			}
+			for i := 0; i < 8 && calls <= failAt; i++ {
+				if _, err := w.Rotate(); err != nil {
+					outcome("rotate", err)
+				}
+			}
+			if err := c.atMost(dir, 1, "after the failed rotation (log open)"); err != nil {
+				return err
+			}
+			outcome("close", safely(w.Close))
+		}
+		if err := c.atMost(dir, 0, "after the log whose next file could not be opened"); err != nil {
+			return err
+		}
+	case "compaction-flag-open-fails", "compaction-input-fails":
+		dbDir := filepath.Join(dir, "db")
+		k := 2 + r.Intn(4)
+		maxKeys := 40
+		if fam == "compaction-flag-open-fails" {
+			maxKeys = 3000 // the merge has to last long enough for the flag file to be redirected
+		}
+		if err := hxTablesDb(r, dbDir, k, maxKeys); err != nil {
+			return err
+		}
+		c.note("db(tables=%d)", k)
+		d, err := simpledb.NewSimpleDB(dbDir, simpledb.CompactionRunInterval(time.Hour), simpledb.CompactionFileThreshold(r.Intn(2)),
+			simpledb.CompactionMaxSizeBytes(1<<30))
+		if err != nil {
+			return err
+		}
+		if err := safely(d.Open); err != nil {
+			return fmt.Errorf("%s: Open of %d undamaged tables: %w", fam, k, err)
+		}
+		if err := c.atMost(dir, k+1, "after Open"); err != nil {
+			return err
+		}
+		attempts := 1 + r.Intn(2)
+		if fam == "compaction-input-fails" {
+			// bit rot in (or loss of) one input that is not the first one, while the database is open
+			j := 1 + r.Intn(k-1)
+			if err := hxDamageTable(c, r, hxTablePath(dbDir, j+1), false); err != nil {
+				return err
+			}
+			res.Stat(fmt.Sprintf("error-path:%s:inputs-opened-before=%d", fam, j))
+		}
+		for a := 0; a < attempts; a++ {
+			stop, done := make(chan struct{}), make(chan int)
+			if fam == "compaction-flag-open-fails" {
+				// the flag file of the compaction about to run leads to a device without space
+				go func() {
+					planted := 0
+					seen := map[string]bool{}
+					for {
+						select {
+						case <-stop:
+							done <- planted
+							return
+						default:
+						}
+						ents, _ := os.ReadDir(dbDir)
+						for _, e := range ents {
+							if strings.HasPrefix(e.Name(), simpledb.SSTableCompactionPathPrefix) && !seen[e.Name()] {
+								seen[e.Name()] = true
+								if os.Symlink("/dev/full", filepath.Join(dbDir, e.Name(), simpledb.CompactionFinishedSuccessfulFileName)) == nil {
+									planted++
+								}
+							}
+						}
+					}
+				}()
+			}
+			cerr := safely(func() error { _, _, e := d.VerifCompactOnce(); return e })
+			if fam == "compaction-flag-open-fails" {
+				close(stop)
+				if <-done == 0 {
+					res.Stat("error-path:" + fam + ":flag-not-redirected-in-time")
+				}
+			}
+			outcome("compact", cerr)
+			names, _, _, _ := d.VerifTables()
+			if err := c.atMost(dir, len(names)+hQuiescentConst, "after the failed compaction (database open)"); err != nil {
+				return err
+			}
+			if cerr == nil {
+				break
+			}
+		}
+		outcome("close", safely(d.Close))
+		if err := c.atMost(dir, 0, "after Close"); err != nil {
+			return err
+		}
+	case "db-open-fails-half-way":
+		dbDir := filepath.Join(dir, "db")
+		k := 2 + r.Intn(5)
+		if err := hxTablesDb(r, dbDir, k, 40); err != nil {
+			return err
+		}
+		j := 1 + r.Intn(k-1)
+		c.note("db(tables=%d)", k)
+		if err := hxDamageTable(c, r, hxTablePath(dbDir, j+1), true); err != nil {
+			return err
+		}
+		res.Stat(fmt.Sprintf("error-path:%s:tables-loaded-before=%d", fam, minInt(j, 5)))
+		opts := []simpledb.ExtraOption{simpledb.DisableCompactions()}
+		if r.Chance(50) {
+			opts = []simpledb.ExtraOption{simpledb.CompactionRunInterval(time.Hour)}
+		}
+		d, err := simpledb.NewSimpleDB(dbDir, opts...)
+		if err != nil {
+			return err
+		}
+		operr := safely(d.Open)
+		outcome("open", operr)
+		if operr == nil {
+			outcome("close", safely(d.Close))
+		} else {
+			if err := c.atMost(dir, 0, "after the failed Open"); err != nil {
+				return err
+			}
+			outcome("close", safely(d.Close))
+			if r.Chance(50) {
+				outcome("open-again", safely(d.Open))
+			}
+		}
+		if err := c.atMost(dir, 0, "after the failed Open and the calls that followed"); err != nil {
+			return err
+		}
+	case "db-close-fails-at-rotation":
+		dbDir := filepath.Join(dir, "db")
+		k := r.Intn(5)
+		if err := os.MkdirAll(dbDir, 0o700); err != nil {
+			return err
+		}
+		if err := hxTablesDb(r, dbDir, k, 40); err != nil {
+			return err
+		}
+		opts := []simpledb.ExtraOption{simpledb.DisableCompactions()}
+		mode := "off"
+		if r.Chance(60) {
+			opts, mode = []simpledb.ExtraOption{simpledb.CompactionRunInterval(time.Hour)}, "idle"
+		}
+		d, err := simpledb.NewSimpleDB(dbDir, opts...)
+		if err != nil {
+			return err
+		}
+		if err := safely(d.Open); err != nil {
+			return fmt.Errorf("%s: Open of %d undamaged tables: %w", fam, k, err)
+		}
+		c.note("db(tables=%d,%s)", k, mode)
+		for i := r.Intn(4); i > 0; i-- {
+			if err := d.Put(string([]byte{byte('a' + r.Intn(8))}), fmt.Sprintf("%x", r.Bytes(1+r.Intn(20)))); err != nil {
+				return err
+			}
+		}
+		if err := c.atMost(dir, k+1, "before Close"); err != nil {
+			return err
+		}
+		walDir := filepath.Join(dbDir, simpledb.WriteAheadFolder)
+		switch r.Intn(3) { // the next log file cannot be created
+		case 0:
+			c.note("wal folder removed")
+			err = os.RemoveAll(walDir)
+		case 1:
+			c.note("wal folder renamed")
+			err = os.Rename(walDir, filepath.Join(dbDir, "wal-moved"))
+		default:
+			c.note("wal folder replaced by a file")
+			if err = os.Rename(walDir, filepath.Join(dbDir, "wal-moved")); err == nil {
+				err = os.WriteFile(walDir, nil, 0o600)
+			}
+		}
+		if err != nil {
+			return err
+		}
+		outcome("close", safely(d.Close))
+		if err := c.atMost(dir, 0, "after the Close whose log rotation failed"); err != nil {
+			return err
+		}
+		outcome("close-again", safely(d.Close))
+		if err := c.atMost(dir, 0, "after the second Close"); err != nil {
+			return err
+		}
+	case "reader-file-option":
+		path := filepath.Join(dir, "x.rio")
+		nrec := r.Intn(10)
+		w, err := rProto.NewWriter(rProto.Path(path))
+		if err != nil {
+			return err
+		}
+		if err := w.Open(); err != nil {
+			return err
+		}
+		for i := 0; i < nrec; i++ {
+			if _, err := w.Write(&dbproto.CompactionMetadata{WritePath: fmt.Sprintf("%x", r.Bytes(1+r.Intn(20)))}); err != nil {
+				return err
+			}
+		}
+		if err := w.Close(); err != nil {
+			return err
+		}
+		f, err := os.Open(path)
+		if err != nil {
+			return err
+		}
+		variant := []string{"recordio.NewFileReader(ReaderFile)", "recordio.NewFileReaderWithFile", "proto.NewProtoReaderWithFile", "proto.NewReader(ReaderFile)"}[r.Intn(4)]
+		c.note("%s records=%d", variant, nrec)
+		res.Stat("error-path:" + fam + ":" + variant)
+		var open, closeFn func() error
+		var next func() error
+		nerr := safely(func() error {
+			switch variant {
+			case "recordio.NewFileReader(ReaderFile)", "recordio.NewFileReaderWithFile":
+				var rd recordio.ReaderI
+				var e error
+				if variant == "recordio.NewFileReaderWithFile" {
+					rd, e = recordio.NewFileReaderWithFile(f)
+				} else {
+					rd, e = recordio.NewFileReader(recordio.ReaderFile(f), recordio.ReaderBufferSizeBytes(4096))
+				}
+				if e != nil {
+					return e
+				}
+				open, closeFn = rd.Open, rd.Close
+				next = func() error { _, e := rd.ReadNext(); return e }
+			default:
+				var rd rProto.ReaderI
+				var e error
+				if variant == "proto.NewProtoReaderWithFile" {
+					rd, e = rProto.NewProtoReaderWithFile(f)
+				} else {
+					rd, e = rProto.NewReader(rProto.ReaderFile(f), rProto.ReadBufferSizeBytes(4096))
+				}
+				if e != nil {
+					return e
+				}
+				open, closeFn = rd.Open, rd.Close
+				next = func() error { _, e := rd.ReadNext(&dbproto.CompactionMetadata{}); return e }
+			}
+			return nil
+		})
+		outcome("new", nerr)
+		if nerr == nil {
+			if r.Chance(80) {
+				operr := safely(open)
+				outcome("open", operr)
+				for i := r.Intn(nrec + 2); i > 0 && operr == nil; i-- {
+					if err := safely(next); err != nil {
+						break
+					}
+				}
+			}
+			if err := c.atMost(dir, 1, "reader open"); err != nil {
+				return err
+			}
+			outcome("close", safely(closeFn))
+		}
+		// the constructors are documented as taking the file over: whether they succeed or not, it is theirs
+		if err := c.atMost(dir, 0, "after the reader that was given an *os.File"); err != nil {
+			return err
+		}
+		runtime.KeepAlive(f)
+	case "wal-replayer-ctor-fails":
+		base := filepath.Join(dir, "wal")
+		elsewhere := filepath.Join(dir, "elsewhere")
+		if err := os.MkdirAll(elsewhere, 0o700); err != nil {
+			return err
+		}
+		variant := []string{"base-path-missing", "base-path-is-a-file", "base-path-renamed-by-the-factory"}[r.Intn(3)]
+		factory := func(path string) (recordio.WriterI, error) { // a factory that keeps the log files somewhere else
+			return recordio.NewFileWriter(recordio.Path(filepath.Join(elsewhere, filepath.Base(path))))
+		}
+		switch variant {
+		case "base-path-is-a-file":
+			if err := os.WriteFile(base, nil, 0o600); err != nil {
+				return err
+			}
+		case "base-path-renamed-by-the-factory":
+			if err := os.MkdirAll(base, 0o700); err != nil {
+				return err
+			}
+			factory = func(path string) (recordio.WriterI, error) {
+				w, err := recordio.NewFileWriter(recordio.Path(path))
+				_ = os.Rename(base, filepath.Join(dir, "wal-moved"))
+				return w, err
+			}
+		}
+		c.note("wal(%s)", variant)
+		res.Stat("error-path:" + fam + ":" + variant)
+		wo, err := wal.NewWriteAheadLogOptions(wal.BasePath(base), wal.WriterFactory(factory))
+		if err != nil {
+			return err
+		}
+		var w wal.WriteAheadLogI
+		nerr := safely(func() error { var e error; w, e = wal.NewWriteAheadLog(wo); return e })
+		outcome("new", nerr)
+		if nerr == nil {
+			if err := c.atMost(dir, 1, "log open"); err != nil {
+				return err
+			}
+			outcome("close", safely(w.Close))
+		}
+		if err := c.atMost(dir, 0, "after NewWriteAheadLog on a base path no replayer can be made for"); err != nil {
+			return err
+		}
+	default:
+		return fmt.Errorf("unknown error-path family %q", fam)
+	}
+	res.NoteNontrivial("errpath:" + c.cs())
+	res.Sample(c.cs())
+	return nil
 }
